@@ -11,7 +11,7 @@ CLAIMED = {
    note='object aliasing is not modelled (probed by mutator scenarios); user callables are sampled from a fixed zoo',
    ref='6/C01'),
  'C02': dict(
-   technique='Lean 4 proof (conformance invariant PkgOk preserved by each Layer-A step for every validity predicate, lifted through mapSel and over pipelines of any length) + step correspondence + cell-by-cell validation oracle on real pipelines',
+   technique='Lean 4 proof (conformance invariant PkgOk preserved by each Layer-A step for every validity predicate, lifted through mapSel and over pipelines of any length) + step correspondence + cell-by-cell validation oracle on real pipelines + theorem over the live join.AGGREGATORS table (declared type fits every aggregate) + joinschema correspondence',
    text='C02_preserve_* / C02_step_* show that delete/select/add_field/filter/deduplicate/delete_resource/set_primary_key/update_resource/duplicate keep names unique, row keys declared and values valid, for every validity predicate and selector; C02_pipeline lifts this to step lists of any length. Real well-typed pipelines over all built-in processor families (join with every aggregator and mode, concatenate, unpivot, computed fields, set_type, sort, iterables ...) are grown step by step and after each the real result is validated cell by cell with Field.cast_value, for alignment, unique names, declared keys and Data Package validity.',
    note='validity = what Field.cast_value accepts (parameter); join / concatenate / unpivot / rename preservation is checked by the oracle and correspondence, not proved; a full-outer join keyed by the row number is a listed finding',
    ref='6/C02'),
@@ -21,7 +21,7 @@ CLAIMED = {
    note='CPython csv/json/strftime, tabulator and tableschema casts are parameters (differential-tested); positional reading of sorted JSON keys (load of json dumps with non-alphabetical schema order) and CR LF normalisation are listed findings; JSON numbers to double precision',
    ref='6/C03'),
  'C04': dict(
-   technique='Lean 4 proof (exception funnel: every fault position/class ends in ProcessorError with the original cause; no commit effect after a failure) + fault correspondence + fault matrix on real code',
+   technique='Lean 4 proof (exception funnel: every fault position/class ends in ProcessorError with the original cause; no commit effect after a failure) + fault correspondence + fault matrix on real code + code-skeleton obligations regenerated from the source (stream publishes last, descriptor after resources)',
    text='C04_propagates_* / C04_never_ok are proved for every chain length, fault position, phase and exception class over the model of _process/safe_process; C04_no_commit_after_failure for every pair of machines whose commits are epilogue effects. The model is tied to the code by the fault correspondence; the property is checked on the real code over a fault matrix (kind x class x position x API) with observers placed after the fault, poisoned rows for built-ins, and upstream failures reaching parallelize in a subprocess under a time limit.',
    note='generator finalisation is CPython behaviour; a failing source iterator is re-wrapped by datapackage (identity of the cause is required for failures raised by steps); parallelize row-function failures inside workers are ignored by design and not steps',
    ref='6/C04'),
@@ -36,22 +36,22 @@ CLAIMED = {
    note='file-object / csv buffering is not look-ahead; S is read live from iterable_storage.SAMPLE_SIZE',
    ref='6/C06'),
  'C07': dict(
-   technique='Lean 4 proof (extended-JSON codec round trip over nested typed values incl. any UTC offset; stream/unstream framing; run/delete history and checkpoint-chain state machines) + ejson/plan correspondence + history oracle on real code',
+   technique='Lean 4 proof (extended-JSON codec round trip over nested typed values incl. any UTC offset; stream/unstream framing; run/delete history and checkpoint-chain state machines) + ejson/plan correspondence + history oracle on real code + code-skeleton obligation (checkpoint decides by existence of the final name only) + unstream correspondence',
    text='C07_ejson_roundtrip is proved by structural induction over all nested values of the claimed domain with the fixed-width date/time formats and the offset arithmetic modelled concretely; C07_stream_unstream for any number of (possibly empty) resources; C07_history / C07_chain_last_wins by induction over histories / chains. Tied to the code by comparing the real tag tree and decoded value of generated typed values with the model, and the executed steps of real run/delete histories over chains of checkpoints with the model plan.',
    note='json text layer, Decimal str/constructor and isodate are assumed to round-trip (leaf parameters); sub-second parts are outside the proved domain (listed finding); user objects carrying tag keys are outside the domain',
    ref='6/C07'),
  'C08': dict(
-   technique='Lean 4 proof (every proper prefix of the writer effect log leaves the final name absent; complete log leaves exactly the stream) + fs-trace correspondence + real SIGKILL before every file operation',
+   technique='Lean 4 proof (every proper prefix of the writer effect log leaves the final name absent; complete log leaves exactly the stream) + fs-trace correspondence + real SIGKILL before every file operation + code-skeleton obligations regenerated from the source AST (write < close < rename, nothing in finally; checkpoint never renames)',
    text='C08_prefix_unusable / C08_complete_when_usable / C08_next_run_equal hold for every number of resources and rows and any non-empty temporary suffix (read live). The effect list of the model is compared with the intercepted file operations of the real writer; the real child is killed (SIGKILL) before every operation and an exception is injected at every row, and after each the next run must recompute and return the uninterrupted result.',
    note='rename(2) atomic; process death, not power loss; Python-level interception of open/write/flush/close/rename in a child process (strace not needed)',
    ref='6/C08'),
  'C09': dict(
-   technique='Lean 4 proof (dotted-path setters/getters are inverse; package totals are the sums; per-resource counters are those of its file; disabled counters leave nothing) + dumpstats correspondence + off-disk oracle',
+   technique='Lean 4 proof (dotted-path setters/getters are inverse; package totals are the sums; per-resource counters are those of its file; disabled counters leave nothing) + dumpstats correspondence + off-disk oracle + code-skeleton obligations (target path resolved before the existence test; finalise < measure/hash < close < copy out)',
    text='C09_get_set / C09_get_inc / C09_set_other hold for every descriptor tree and dotted name; C09_totals and C09_resource for every list of resources and counter naming with distinct top-level names. On the real code, every dump (csv/json, path/zip, renamed / dotted / disabled counters, add_filehash_to_path, pretty_descriptor) is checked against the size, md5 and row count read off the written files, totals against sums, returned stats against the written descriptor, and dumped twice for determinism.',
    note='md5 is uninterpreted; text-mode tell() and the csv/json decoders used to count rows are CPython; stats bytes vs descriptor bytes is a listed finding',
    ref='6/C09'),
  'C10': dict(
-   technique='Lean 4 proof (matcher = specification for every regex oracle; frame theorem for every mapSel processor) + step correspondence + frame oracle on real code',
+   technique='Lean 4 proof (matcher = specification for every regex oracle; frame theorem for every mapSel processor) + step correspondence + frame oracle on real code + two-step frame oracle (frame under composition)',
    text='Theorems C10_matcher_spec / C10_frame_* hold for all packages, selectors and regex oracles; the model is tied to the code by the step correspondence (real processor vs compiled model on generated packages) and the frame property is re-checked on the real output of every selector-taking processor.',
    note='re is an oracle parameter (table per case); processors not in Layer A (set_type, validate, sort_rows, printer, parallelize, add_computed_field, find_replace, update_schema, load) are covered by the frame oracle on the real code only',
    ref='6/C10'),
@@ -66,12 +66,12 @@ CLAIMED = {
    note='bitstring packing = IEEE-754; kvfile ordered by key bytes; int/Decimal -> double conversion is monotone but not injective above 2^53 (listed finding); the empty string is null for Table Schema and not a key',
    ref='6/C12'),
  'C13': dict(
-   technique='Lean 4 proof (limiter = take n incl. 0; strip removes only surrounding whitespace; de-duplicated headers are unique for every header list and format, by a 7-clause loop invariant) + hdr/wrap correspondence + independent csv.reader oracle',
+   technique='Lean 4 proof (limiter = take n incl. 0; strip removes only surrounding whitespace; de-duplicated headers are unique for every header list and format, by a 7-clause loop invariant) + hdr/wrap correspondence + independent csv.reader oracle + wrapper-chain theorems (cast, strip, limit as lazy generators) with the order read from the source AST',
    text='C13_limit, C13_strip_only_whitespace and C13_dedup_unique hold for all tables / cells / header lists (headers that already look like generated names included). Real load() runs over generated CSV files and option combinations are compared with an independent csv.reader pass with the wrapper semantics applied, the real headers with the model of rename_duplicate_headers, the real rows with the model limiter/stripper, and package / (descriptor, iterators) sources with the selector specification.',
    note='tabulator parsing and Schema.infer are third-party (parse faithfulness by comparison only); schema casting is shared with C14; the `while True` of the numbering is modelled with fuel (termination by distinct candidates is argued, not proved)',
    ref='6/C13'),
  'C14': dict(
-   technique='Lean 4 proof (schema_validator loop = per-policy specification, for every cast function) + validate correspondence + policy oracle on real code',
+   technique='Lean 4 proof (schema_validator loop = per-policy specification, for every cast function) + validate correspondence + policy oracle on real code + transform-before-cast theorems (nulls included)',
    text='For every cast function, table, number and position of bad values: drop = filter+cast, ignore/clear keep all rows, custom handlers by truthiness, raise aborts at the first bad row with its absolute index, emitted values are casts; tied to the code by the validate correspondence with the real cast_value outcomes and re-checked directly on real set_type/validate runs.',
    note='Field.cast_value is a parameter (its outcomes are supplied per case); field names of the schema assumed distinct; field-name patterns with a top-level alternation are not generated (their anchoring is not pinned by the property)',
    ref='6/C14'),
@@ -81,12 +81,12 @@ CLAIMED = {
    note='mp.Queue FIFO per producing process, atomic queue operations; single-writer queues are represented as rows++markers (program order of their one writer); threads substitute processes in the controlled runs',
    ref='6/C18'),
  'C19': dict(
-   technique='Lean 4 proof (descriptor effects come after all data-file effects; any prefix with a descriptor present has all data files complete) + fs-trace correspondence + real SIGKILL before every file operation of real dumps',
+   technique='Lean 4 proof (descriptor effects come after all data-file effects; any prefix with a descriptor present has all data files complete) + fs-trace correspondence + real SIGKILL before every file operation of real dumps + code-skeleton obligations regenerated from the source AST (finalise < measure < close < copy out; descriptor after the resource loop)',
    text='C19_descriptor_last / C19_prefix_safe for any number of resources and chunks; the model effect order is compared with the intercepted operations of the real dump_to_path, and the real child is killed before every operation in the output directory (copies forced into 48-byte chunks): whenever datapackage.json parses, every listed file must exist with recorded size and md5.',
    note='a killed process performs no further effects; writes to one file take effect in order; temp files outside the output directory are not observable',
    ref='6/C19'),
  'C15': dict(
-   technique='Lean 4 proof (lockstep invariants of delete/select/add/rename) + step correspondence + lockstep oracle',
+   technique='Lean 4 proof (lockstep invariants of delete/select/add/rename) + step correspondence + lockstep oracle + find_replace / add_computed_field model (exact arithmetic, declared-type rule) in the step correspondence',
    text='Lockstep (row keys = declared fields), value preservation and order rules proved for every table and every regex oracle; correspondence ties the model to the code; the lockstep property is checked directly on real outputs incl. add_computed_field and find_replace.',
    note='regex via oracle table; rename onto an existing untouched field is outside the proved theorem (guard of the _partial statement)',
    ref='6/C15'),
